@@ -81,7 +81,7 @@ fn c10_strategy(ctx: &Ctx) -> BoxedStrategy<SeqCase> {
           root,
           hots: vec![kind.clone()],
           hot_illformed: false,
-          conn: None,
+          conn: None, conn_take: None,
           recorders: vec![
             match (nested, &kind) {
               // (an AsyncSubject observer only hears from the subject on completion)
